@@ -145,7 +145,7 @@ def run(tier, seed, replay=None):
 
     # ------------------------------------------------------------------ path shapes x options
     # systematic part: every shape x {no -O, -O out, -O nested} and every escaping spelling; then random combinations
-    SHAPES = ("plain", "dot", "dotdot-inside", "absolute", "two-sources", "escape")
+    SHAPES = ("plain", "dot", "dotdot-inside", "absolute", "two-sources", "escape", "symlink-source")
     ESCAPES = ("../outside/Esc.qml", "sub/../../outside/Esc.qml", "./../outside/Esc.qml", "sub/./../../outside/Esc.qml",
                "a/b/../../../outside/Esc.qml")
     grid = [(sh, od, None) for sh in SHAPES if sh != "escape" for od in (None, "out", "build/gen")]
@@ -168,6 +168,12 @@ def run(tier, seed, replay=None):
         body = (DYNAMIC_QML if dynamic and rng.random() < 0.5 else STATIC_QML) % ("t%d" % k, "x")
         files = {src_rel: body}
         sources = [src_rel]
+        link_target = None
+        if shape == "symlink-source":
+            # X.qml is a symbolic link to a file with another stem kept elsewhere (a chosen variant, a content-addressed store):
+            # the outputs are named after the source the user passed
+            link_target = rng.choice(("store/Impl_v2.variant", "store/0a1b2c.qml", "variants/Desktop.qml"))
+            files = {link_target: body}
         if shape == "dot":
             sources = ["./" + src_rel]
         elif shape == "dotdot-inside":
@@ -178,6 +184,9 @@ def run(tier, seed, replay=None):
             files[os.path.join(sub, "Other.qml")] = STATIC_QML % ("o", "y")
             sources = [src_rel, os.path.join(sub, "Other.qml")]
         w = make_project(base, "s%d" % k, files)
+        if link_target:
+            os.makedirs(os.path.dirname(os.path.join(w, src_rel)), exist_ok=True)
+            os.symlink(os.path.relpath(os.path.join(w, link_target), os.path.dirname(os.path.join(w, src_rel))), os.path.join(w, src_rel))
         if shape == "absolute":
             sources = [os.path.join(w, src_rel)]
         elif shape == "escape":
